@@ -39,6 +39,12 @@ func VerifyFunc(p *Prog, fi *FuncInfo, modeOverride string) *VC {
 		}
 		v := vc.havocVal(pv.Type(), pv.Name())
 		vc.assumeGlobal(vc.typeFacts(v, pv.Type(), vc.alloc0))
+		if tv, ok := v.(Term); ok && tv.Sort == SSlice {
+			if vc.oldVals == nil {
+				vc.oldVals = map[string]bool{}
+			}
+			vc.oldVals[tv.S] = true
+		}
 		if sv, ok := v.(*StructV); ok {
 			// struct parameter: boxed local copy (allocated before alloc0 would make it look caller-visible; allocate fresh)
 			ref := vc.allocRef(st, "param!"+pv.Name())
